@@ -111,6 +111,12 @@ def task_verify(args):
             if limit:
                 signal.alarm(0)
         out["obligations"] = [o.to_json() for o in v.obligations]
+        if v.binding_notes and arity is None:
+            if out["error"] is None and any(o.status != "proved" for o in v.obligations):
+                out["error"] = "VerifError: " + "; ".join(v.binding_notes) + " (contract tried with ordinal binding: not all obligations discharged)"
+                out["obligations"] = []
+            else:
+                out["binding_notes"] = list(v.binding_notes)
         out["paths"] = v.paths
         out["incomplete"] = (out.get("incomplete") or []) + v.incomplete
         out["raised"] = len(v.raised)
